@@ -8,7 +8,8 @@ SPEC = {
             "length, set padding of 0 .. min(shortest record of the template - 1, 7) octets as RFC 7011 3.3.1 allows) with a "
             "model-independent expected-decode oracle whose expected values are computed from the data types' definitions (RFC 7011 "
             "6.1: big-endian / two's-complement number of all the field's octets, math/big), not from Interpret; ipfix: mixed "
-            "stream with about 12 % malformed datagrams; interp: ipfix.Interpret alone on every FieldType x every field length "
+            "stream with about 12 % malformed datagrams, incl. template records with field count 0 in front of other records of their set "
+            "followed by data sets for them (expected: the message with exactly the records of its other sets, any error list: tag F30); interp: ipfix.Interpret alone on every FieldType x every field length "
             "0..20 x boundary contents; "
             "non-trivial = the implementation produced a non-error result; distinct = distinct case line",
     "assumptions": ["information model = the table regenerated from ipfix/rfc5102_model.go (lookupElem is opaque in the proofs)",
